@@ -56,12 +56,14 @@ type Case struct {
 	Ext    bool   `json:"ext,omitempty"`    // register zstd:chunked and external-TOC decompressors (as the snapshotter does)
 	TocOff int64  `json:"tocoff,omitempty"` // WithTOCOffset
 	// tree: Ops = TOC entries; read: Ops2 = chunk table
-	Ops    []Ent   `json:"ops,omitempty"`
-	Chunks []Chunk `json:"chunks,omitempty"`
-	Off    int64   `json:"off,omitempty"`
-	Len    int     `json:"len,omitempty"`
-	Fsize  int64   `json:"fsize,omitempty"`
-	Hits   []bool  `json:"hits,omitempty"`
+	Ops     []Ent   `json:"ops,omitempty"`
+	Chunks  []Chunk `json:"chunks,omitempty"`
+	Off     int64   `json:"off,omitempty"`
+	Len     int     `json:"len,omitempty"`
+	Fsize   int64   `json:"fsize,omitempty"`
+	Workers int     `json:"workers,omitempty"` // merge: worker count (Len = merge buffer size)
+	Raw     string  `json:"raw,omitempty"`     // json: the TOC JSON text
+	Hits    []bool  `json:"hits,omitempty"`
 }
 
 // Obs is what the implementation did.
@@ -135,6 +137,12 @@ func execCase(c Case) Obs {
 		return execRead(c)
 	case "chunk":
 		return execChunk(c)
+	case "merge":
+		return execMerge(c)
+	case "build":
+		return execBuild(c)
+	case "json":
+		return execJSON(c)
 	}
 	if f, ok := cfg.Exec[c.Kind]; ok {
 		return f(c)
@@ -310,7 +318,7 @@ func Main(c Config) {
 		term, key, nontrivial := cfg.Coq(ctx, c, o)
 		id := ctx.Case(term, c, key, nontrivial)
 		if !okClass(o.Class) {
-			if (c.Kind == "read" || c.Kind == "tree" || c.Kind == "dbtree") && hugeChunk(c) && (o.Class == "panic" || o.Class == "oom") &&
+			if (c.Kind == "read" || c.Kind == "tree" || c.Kind == "dbtree" || c.Kind == "merge") && hugeChunk(c) && (o.Class == "panic" || o.Class == "oom") &&
 				(strings.Contains(o.Msg, "too large") || strings.Contains(o.Msg, "out of memory") || strings.Contains(o.Msg, "out of range")) {
 				// known: the temporary buffer for a chunk is allocated from the TOC's chunk size alone
 				ctx.Count(c.Kind + ".huge-chunk-alloc")
